@@ -287,10 +287,11 @@ pub fn record_one(b: &mut Batch, r: &mut StdRng, p: &Profile, modes: &[RealMode]
     // build (through the public API, real syntax)
     // mode names concretised (ttmap::conc_name): what mode_name reports is mapped back in exec.rs
     let renamed: Vec<_> = modes.iter().map(|m| { let mut x = m.clone(); x.name = crate::ttmap::conc_name(&x.name); x }).collect();
-    let sm = crate::parse::to_scanner_modes(&renamed);
     let cached = r.gen_bool(if p.max_modes > 1 { 0.7 } else { 0.3 });
+    // ScannerMode::new is library code too: a panic in it is data, not a harness failure
     let built = std::panic::catch_unwind(std::panic::AssertUnwindSafe(|| {
-        crate::parse::build_via(&sm, cached)
+        let sm = crate::parse::to_scanner_modes(&renamed);
+        crate::parse::build_via(&sm, cached).map(|sc| (sc, sm))
     }));
     let syms: Vec<char> = vec![];
     let mut w = World::new(&syms);
@@ -302,7 +303,7 @@ pub fn record_one(b: &mut Batch, r: &mut StdRng, p: &Profile, modes: &[RealMode]
         Ok(Err(e)) => {
             b.events.push(json!({"op": "build", "cfg": ci, "cached": cached, "ok": false, "err": e.to_string()}));
         }
-        Ok(Ok(sc)) => {
+        Ok(Ok((sc, sm))) => {
             b.events.push(json!({"op": "build", "cfg": ci, "cached": cached, "ok": true}));
             w.scanners.push(sc);
             // C12: iterators of two scanners that share one cached compilation, interleaved
